@@ -165,6 +165,21 @@ func main() {
 			os.Exit(2)
 		}
 		fmt.Printf("wrote %d function keys\n", len(list))
+		var pl []string
+		for _, fn := range prog.Funcs {
+			var names []string
+			for _, q := range fn.Params {
+				names = append(names, q.Name())
+			}
+			pl = append(pl, ir.FuncKey(fn)+"\t"+strings.Join(names, ","))
+		}
+		sort.Strings(pl)
+		pout := "# parameter names of every module function on the reference tree (function key, TAB, names in order, receiver first):\n# eng.Param(name) resolves names through this table, so renaming a parameter does not disturb the rules\n" + strings.Join(pl, "\n") + "\n"
+		if err := os.WriteFile(filepath.Join(root, "checker", "eng", "reference_params.txt"), []byte(pout), 0o644); err != nil {
+			fmt.Println(err)
+			os.Exit(2)
+		}
+		fmt.Printf("wrote %d parameter lists\n", len(pl))
 		os.Exit(0)
 	}
 	var normNotes []string
